@@ -336,12 +336,12 @@ Proof.
   - (* inside Router.Stop *)
     pose proof (co_thread _ _ _ (Ic _ _ Hp) t eq_refl) as Lt.
     destruct (nth_error (stops (router s)) t) as [pc|] eqn:Et; [|apply nth_error_None in Et; lia].
-    destruct (klock s) eqn:Hk; [auto|].
+    destruct (klock s) eqn:Hkl; [auto|].
     destruct pc.
-    + exists (KR (AHostStop t)). eexists. cbn. rewrite Et. reflexivity.
-    + exists (KR (ACloseAll t)). eexists. cbn. rewrite Et. reflexivity.
+    + exists (KR (AHostStop t)). eexists. cbn. rewrite Hkl, Et. reflexivity.
+    + exists (KR (ACloseAll t)). eexists. cbn. rewrite Hkl, Et. reflexivity.
     + destruct (wg (router s)) as [|w] eqn:Ew.
-      * exists (KR (AWait t)). eexists. cbn. rewrite Et, Ew. cbn. reflexivity.
+      * exists (KR (AWait t)). eexists. cbn. rewrite Hkl, Et, Ew. cbn. reflexivity.
       * assert (Hc : closed (router s) = true) by (apply (inv_stops _ _ Ir _ _ Et); auto).
         assert (NZ : sumf wgf (conns (router s)) <> 0).
         { pose proof (inv_wg _ _ Ir) as W. unfold count_busy in W. lia. }
@@ -351,7 +351,7 @@ Proof.
           - destruct (handler_progress _ _ _ _ Ir Hc Hk L) as (a & r' & Ha & Hs & _). eauto.
           - destruct (neg k) eqn:Ng; [|cbn in Hl; congruence].
             destruct (neg_progress _ _ _ _ Ir Hc Hk Ng) as (a & r' & Ha & Hs & _). eauto. }
-        exists (KR a). eexists. cbn. rewrite (handler_allowed _ Ha), Hs. reflexivity.
+        exists (KR a). eexists. cbn. rewrite Hkl, (handler_allowed _ Ha), Hs. reflexivity.
     + exists (KStopRet i). eexists. cbn. rewrite Hp, Et. reflexivity.
   - exists (KWs i). eexists. cbn. rewrite Hp. reflexivity.
   - exists (KOv i). eexists. cbn. rewrite Hp. reflexivity.
@@ -451,7 +451,7 @@ Definition kmeas (s : kstate) : nat := lsum cmeas (callers s) + rmeas (router s)
 Lemma allowed_decreases fx r a r' : allowed a = true -> step fx r a = Some r' -> rmeas r' < rmeas r.
 Proof.
   intros Al H. unfold rmeas.
-  destruct a as [ |p|p|c|c|t|t|t|t|t|t|t|t|t|c|c|c|c|c|c|c v|c|c|c m|c|c|c|c|c|c|c]; try discriminate; cbn [step] in H.
+  destruct a as [ |p|p|c|c|t|t|t|t|t|t|t|t|t|c|c|c|c|c|c|c|c v|c|c|c m|c|c|c|c|c|c|c]; try discriminate; cbn [step] in H.
   - destruct (nth_error (stops r) t) as [[| | |]|] eqn:Et; try discriminate. inversion H; subst; cbn.
     pose proof (lsum_upd stmeas _ _ _ SCloseAll Et) as Q. cbn in Q. lia.
   - destruct (nth_error (stops r) t) as [[| | |]|] eqn:Et; try discriminate. inversion H; subst; cbn.
@@ -475,7 +475,7 @@ Proof.
     destruct (wg r); inversion H; subst; cbn; lia.
   - (* ARecvIdFail *)
     destruct (nth_error (conns r) c) as [k|] eqn:Ek; [|discriminate].
-    destruct (setup k) eqn:Es; try discriminate. inversion H; subst; cbn.
+    destruct (setup k) eqn:Es; try discriminate. destruct (lopen k && popen k); [discriminate|]. inversion H; subst; cbn.
     pose proof (sumf_upd hmf2 _ _ _ (set_setup (close_conn k) SetupErr) Ek) as Q.
     unfold hmf2 in Q at 2 4. rewrite Es in Q. cbn in Q. lia.
   - (* ACheckPeer *)
@@ -674,7 +674,7 @@ Proof.
   eexists. split; [vm_compute; reflexivity|]. repeat split.
   intros a. destruct a as [ |i|i|i|i|ra|i|i|i|i]; try reflexivity;
     try (destruct i as [|[|[|i]]]; reflexivity).
-  destruct ra as [ |p|p|c|c|t|t|t|t|t|t|t|t|t|c|c|c|c|c|c|c v|c|c|c m|c|c|c|c|c|c|c]; try reflexivity;
+  destruct ra as [ |p|p|c|c|t|t|t|t|t|t|t|t|t|c|c|c|c|c|c|c|c v|c|c|c m|c|c|c|c|c|c|c]; try reflexivity;
     try (destruct t as [|[|t]]; reflexivity); try (destruct c as [|c]; reflexivity).
 Qed.
 
